@@ -31,6 +31,22 @@ Section Bin.
   Qed.
 End Bin.
 
+(** whole KMIP messages at the schema regenerated from /repo: the executable unmarshal of the
+    correspondence ([kmip_unmarshal], decoder fuel [FUEL]) returns the message that was encoded *)
+Theorem kmip_message_roundtrip root d v fe fc items st' sc :
+  find_tdef kmip_schema root = Some d ->
+  enc_ty kmip_schema fe None (TNamed root) (t_deftag d) v = Ok (items, st') ->
+  conf_ty kmip_schema kmip_ops kmip_attrs kmip_objs fc None (TNamed root) (t_deftag d) v = Some sc ->
+  forallb item_ok items = true -> forallb item_small items = true ->
+  (fe + 2 * items_size items + 2 <= FUEL)%nat ->
+  kmip_unmarshal root (wire_enc_list items) = Ok v.
+Proof.
+  intros Ed He Hc Hok Hsm Hfd.
+  destruct (bin_roundtrip kmip_schema kmip_ops kmip_attrs kmip_objs fe fc None (TNamed root) (t_deftag d) v items st' sc He Hc Hok Hsm eq_refl)
+    as (c & Hcur & Hdec).
+  unfold kmip_unmarshal. rewrite Hcur. cbn [bind]. unfold kmip_dec. rewrite Ed. rewrite (Hdec FUEL Hfd). reflexivity.
+Qed.
+
 (** every structure of the regenerated schema that the reflective decoder handles is
     unambiguous: an element that may be absent never shares its tag with a later element *)
 Definition reflective_unambiguous (S : schema) : bool :=
@@ -40,6 +56,6 @@ Lemma kmip_reflective_unambiguous : reflective_unambiguous kmip_schema = true.
 Proof. vm_compute. reflexivity. Qed.
 
 (** structures decoded by hand-written code: their field lists are not required to satisfy
-    [wf_fields] (the hand-written decoder knows more); these are the ones the theorem does not cover yet *)
+    [wf_fields] (the hand-written decoder knows more; their conformance is [conf_custom_of]) *)
 Definition custom_decoded (S : schema) : list string :=
   map t_name (filter (fun d => t_custom_dec d || t_custom_enc d) S).
